@@ -5637,7 +5637,11 @@ impl<'a, 'graph> Builder<'a, 'graph> {
     let maybe_range = options.maybe_range;
     let maybe_source_phase_referrer = options.maybe_source_phase_referrer;
     let original_specifier = specifier;
-    let specifier = self.graph.redirects.get(specifier).unwrap_or(specifier);
+    // follow every known redirect: the target of a redirect may itself be a
+    // redirect source (seeded from the lockfile, or a module that was
+    // answered under another final specifier) and then has no entry of its
+    // own to find
+    let specifier = &self.graph.resolve(specifier).clone();
     if options.is_asset {
       // TODO(nayeemrmn): We need to load the module to validate the actual
       // media type for source-phase-import eligibility. Don't treat
